@@ -1,10 +1,11 @@
 #!/bin/bash
-# dev helper: run every check of a tier sequentially, print the verdict lines
+# dev helper: run every check of a tier sequentially, print the verdict and per-harness lines
 tier=${1:-quick}
 cd "$(dirname "$0")/.."
 for i in $(seq -w 1 20); do
   s=$(date +%s)
   out=$(./check C$i $tier 2>&1); rc=$?
   e=$(date +%s)
-  echo "C$i rc=$rc $((e-s))s $(echo "$out" | grep -E '^OK|^VIOLATION|^HARNESS-ERROR|^MODEL-MISMATCH|KNOWN-FINDING' | cut -c1-160 | head -4 | tr '\n' '|')"
+  echo "C$i rc=$rc $((e-s))s"
+  echo "$out" | grep -E '^  [a-z]|^OK|^VIOLATION|^HARNESS-ERROR|^MODEL-MISMATCH' | cut -c1-330 | head -30
 done
